@@ -371,6 +371,9 @@ TARGETS = {
     'GenCss': ('weasyprint/css/__init__.py', [
         ('fun', 'declaration_precedence', 'declaration_precedence', {}),
     ]),
+    'GenMedia': ('weasyprint/css/media_queries.py', [
+        ('fun', 'evaluate_media_query', 'evaluate_media_query', {}),
+    ]),
     'GenCssUtils': ('weasyprint/css/utils.py', [
         ('qtable', 'LENGTHS_TO_PIXELS', 'lengths_to_pixels', {}),
     ]),
